@@ -618,4 +618,103 @@ theorem read_written_metadata (B : List (Option Data)) (metas : List MetaW) :
     simp only [hb]
     rfl
 
+/-! ## (h) the whole file -/
+
+theorem prepOp_info (ts : List TensorD) (op : OpD) (p : POp) (h : prepOp ts op = .ok p) : p.info.tableOk = true := by
+  unfold prepOp at h
+  obtain ⟨info, h1, h⟩ := bind_ok h
+  obtain ⟨in1, h2, h⟩ := bind_ok h
+  obtain ⟨in2, h3, h⟩ := bind_ok h
+  simp only [pure, Except.pure, Except.ok.injEq] at h
+  subst h
+  unfold lookupOpE at h1
+  cases hx : lookupOp op.type with
+  | none => simp [hx, throw, throwThe, MonadExceptOf.throw] at h1
+  | some i =>
+    simp [hx, pure, Except.pure] at h1
+    subst h1
+    exact (lookupOp_tableOk _ _ hx).1
+
+/-- the operators of a prepared subgraph come from `prepOp` -/
+theorem prepSub_ops (ts : List TensorD) (sg : SubgraphD) (ps : PSub) (h : prepSub ts sg = .ok ps) :
+    ∀ p ∈ ps.ops, ∃ op, prepOp ts op = .ok p := by
+  unfold prepSub at h
+  obtain ⟨ops, h1, h⟩ := bind_ok h
+  simp only [pure, Except.pure, Except.ok.injEq] at h
+  subst h
+  intro p hp
+  obtain ⟨op, _, hop⟩ := mapM_mem _ _ _ h1 p hp
+  exact ⟨op, hop⟩
+
+theorem sgOps_noVirtual (ps : PSub) (h : ps.sg.virtualOutputs = []) : sgOps ps = ps.ops := by
+  unfold sgOps clearVirtual
+  rw [h]; rfl
+
+theorem subOk_of (d : Desc) (ci : OpInfo) (hci : lookupOp "Custom" = some ci) (codes : List Code) (opcodes : List OpCodeT)
+    (rcodes : List Reader.RCode) (h2 : codes.mapM serialiseOpCode = .ok opcodes) (h3 : opcodes.mapM Reader.parseOpCode = .ok rcodes)
+    (B X : List (Option Data)) (sgd : SubgraphD) (ps : PSub) (sg : SubGraphT) (hprep : prepSub d.tensors sgd = .ok ps)
+    (hdom : subDomain d.tensors ps = true) (hloc : SgLocal d.tensors codes ps sg)
+    (ht : TensorsOk d.tensors (sgAll d.tensors ps) sg.tensors B) :
+    SubOk d.tensors ci rcodes codes (((B ++ X).map fun b => ({ data := b } : BufferT)).map Reader.parseBuffer) ps sg := by
+  unfold subDomain at hdom
+  simp only [Bool.and_eq_true, List.isEmpty_iff] at hdom
+  obtain ⟨⟨⟨hvo, hops⟩, hdata⟩, hinp⟩ := hdom
+  obtain ⟨own, o1, _, o3⟩ := parse_written_tensors d.tensors (sgAll d.tensors ps) sg.tensors B X ht (by
+    intro g hg td htd
+    have := List.all_eq_true.mp hdata g hg
+    simpa [htd] using this)
+  refine ⟨hloc, ht.1, ⟨own, o1, o3⟩, ?_, hinp⟩
+  intro p hp
+  have hp' := hp
+  unfold writtenOps at hp'
+  obtain ⟨hp1, hp2⟩ := List.mem_filter.mp hp'
+  rw [sgOps_noVirtual ps hvo] at hp1
+  obtain ⟨op, hop⟩ := prepSub_ops d.tensors sgd ps hprep p hp1
+  obtain ⟨_, _, _, _, _, _, _, hinv, _⟩ := prepOp_ok d.tensors op p hop
+  exact opFacts_of ci hci codes opcodes rcodes h2 h3 p (prepOp_info d.tensors op p hop) (List.all_eq_true.mp hops p hp)
+    (hinv (by simpa using hp2))
+
+theorem read_writeWith (d : Desc) (enum : List Code) (m : ModelT) (hd : roundtripDomain d = true) (h : writeWith d enum = .ok m) :
+    Reader.read d.version m = normalise d ∧ ∃ nd, normalise d = .ok nd := by
+  obtain ⟨subs, opcodes, st, metas, h1, h2, h3, h4, hm, acc, hl⟩ := write_facts d enum m h
+  obtain ⟨ci, hci⟩ := Option.isSome_iff_exists.mp custom_exists
+  have hciE : lookupOpE "Custom" = .ok ci := by unfold lookupOpE; rw [hci]; rfl
+  obtain ⟨rcodes, h3'⟩ := opcodes_readable _ _ h2
+  have hloc := subgraphs_local d.tensors (sortCodes enum) subs st0 m.subgraphs st h3
+  have hdom : ∀ ps ∈ subs, subDomain d.tensors ps = true := by
+    unfold roundtripDomain preppedSubs at hd
+    rw [h1] at hd
+    exact fun ps hps => List.all_eq_true.mp hd ps hps
+  have hbufs : m.buffers = (st.buffers ++ metas.map (·.data)).map fun b => ({ data := b } : BufferT) := by rw [hm]; rfl
+  have hopc : m.opcodes = opcodes := by rw [hm]; rfl
+  have hmd : m.metadata = metas.zipIdx.map fun x => ({ name := some x.1.name, buffer := st.buffers.length + x.2 } : MetadataT) := by
+    rw [hm]; rfl
+  have hall : List.Forall₂ (SubOk d.tensors ci rcodes (sortCodes enum) (m.buffers.map Reader.parseBuffer)) subs m.subgraphs := by
+    rw [hbufs]
+    rw [List.forall₂_iff_get]
+    refine ⟨hl.symm, ?_⟩
+    intro k hk hs
+    have hL := (List.forall₂_iff_get.mp hloc).2 k hk hs
+    have hps : subs.get ⟨k, hk⟩ ∈ subs := List.get_mem _ _
+    obtain ⟨sgd, _, hprep⟩ := mapM_mem _ _ _ h1 _ hps
+    have hmap : (subs.map (sgAll d.tensors))[k]? = some (sgAll d.tensors (subs.get ⟨k, hk⟩)) := by
+      simp [List.getElem?_eq_getElem hk]
+    have hsg : m.subgraphs[k]? = some (m.subgraphs.get ⟨k, hs⟩) := by simp [List.getElem?_eq_getElem hs]
+    exact subOk_of d ci hci _ opcodes rcodes h2 h3' st.buffers _ sgd _ _ hprep (hdom _ hps) hL (acc.tensors k _ _ hmap hsg)
+  have e2 := read_written_subgraphs _ _ _ _ _ _ _ hall []
+  have e3 : Reader.readMetadata (m.buffers.map Reader.parseBuffer) m.metadata =
+      .ok (metas.map fun mw => { nameIsBytes := true, name := mw.name, data := normValues mw.data }) := by
+    rw [hbufs, hmd]; exact read_written_metadata st.buffers metas
+  have e4 : metadataToWrite d (subs.map (sgAll d.tensors)) = .ok metas := by rw [← acc.maps_eq]; exact h4
+  obtain ⟨r, hr⟩ := normSubs_ok _ _ _ _ _ _ _ hall []
+  have hnorm : normalise d = .ok (Desc.mk r.2 r.1
+      (metas.map fun mw => { nameIsBytes := true, name := mw.name, data := normValues mw.data }) d.version) := by
+    unfold normalise
+    simp only [h1, hciE, hr, e4, bind, Except.bind, pure, Except.pure]
+  refine ⟨?_, _, hnorm⟩
+  rw [hnorm]
+  unfold Reader.read
+  rw [hopc] at *
+  simp only [h3', e2, hr, e3, bind, Except.bind, pure, Except.pure]
+
 end VelaVerif.Tflite.Roundtrip
